@@ -26,7 +26,9 @@ def run(tier, seed, jobs):
         "deadlock; non-trivial = at least one non-default thread scheduling decision")
     for v in viol:
         w0 = v["what"][0]
-        if w0.startswith("execution status deadlock"):
+        if w0.startswith("a call submitted to the portal while its event loop was finishing"):
+            v["signature"] = "call submitted while the portal's event loop finishes is never answered"
+        elif w0.startswith("execution status deadlock"):
             # (specific: which scenario, which actors are stuck - a known finding must not hide
             # other deadlocks)
             v["signature"] = (v.get("program", {}).get("label", "?") + " :: " +
